@@ -54,7 +54,7 @@ func TestC06(t *testing.T) {
 		cfg := baseConfig()
 		cs := caseOf(cfg, []string{f.RelPath}, f)
 		jobs := buildJobs(rt, c, f.Root, progRoot, plan, o, cs)
-		rc := &RunCase{Case: cs, Jobs: jobs}
+		rc := &RunCase{Case: cs, Jobs: jobs, Model: modelIfSingle(cs, f)}
 		c.Sample(sampleOf(cs, jobs))
 		countStringShapes(c, f)
 		return rc
